@@ -245,6 +245,46 @@ def check(item, tier):
         r.maxi('depth', maxdepth)
         if nreach >= 3:
             r.nontriv(pitem)
+        # ---- outcomes listed with probability 0 are no outcomes: the same POMDP whose transition distributions also list a
+        # never-entered state with probability 0 (for which the observation function is not defined) filters identically
+        if (li + oi_) % 3 == 0:
+            ghost = ('never', 'entered')
+
+            class Ghosted(SpecPOMDP):
+                def next_state_dist(self, s_, a_):
+                    d = dict(SpecPOMDP.next_state_dist(self, s_, a_).items())
+                    d[ghost] = 0.0
+                    return DictDistribution(d)
+
+                def observation_dist(self, a_, ns_):
+                    if ns_ == ghost:
+                        raise KeyError(ns_)
+                    return SpecPOMDP.observation_dist(self, a_, ns_)
+            plain = SpecPOMDP(ps, SLAB[li], ALAB[li], OLAB[oi_])
+            gh = Ghosted(ps, SLAB[li], ALAB[li], OLAB[oi_])
+            listed = [x for x in plain.state_list]
+            for bq in pomdpspec.lattice_beliefs(n):
+                if any(p_ > 0 and sl(s_) not in listed for s_, p_ in bq.items()):
+                    continue
+                bd = DictDistribution({sl(s_): float(p_) for s_, p_ in bq.items() if p_ > 0})
+                for a in ps.anames:
+                    r.count('transitions')
+                    try:
+                        pred_p = {k: round(v, 12) for k, v in plain.predictive_observation_dist(bd, al(a)).items()}
+                        pred_g = {k: round(v, 12) for k, v in gh.predictive_observation_dist(bd, al(a)).items()}
+                        posts = [({k: round(v, 12) for k, v in plain.state_estimator(bd, al(a), o_).items()},
+                                  {k: round(v, 12) for k, v in gh.state_estimator(bd, al(a), o_).items()}) for o_ in pred_p]
+                        bm = {tuple(zip(k[0], [round(x, 12) for x in k[1]])): round(v, 12)
+                              for k, v in BeliefMDP(gh).next_state_dist(Belief(tuple(listed), tuple(float(bd.prob(x)) for x in listed)), al(a)).items()}
+                    except Exception as e:
+                        bad('zero_probability_successor_is_treated_as_an_outcome', {'belief': bq, 'a': a, 'error': repr(e)[:200]})
+                        break
+                    if pred_p != pred_g or any(x != y for x, y in posts):
+                        bad('filter_depends_on_a_zero_probability_successor', {'belief': bq, 'a': a, 'plain': repr(pred_p), 'ghosted': repr(pred_g)})
+                        break
+                else:
+                    continue
+                break
     if hash(repr(item)) % 2000 == 0:
         r.sample({'pomdp': repr(pitem), 'labels': (SLAB[li], ALAB[li], OLAB[oi_]), 'beliefs_explored': len(seen)})
     return r
